@@ -36,12 +36,12 @@ P['C02'] = {
 }
 
 P['C13'] = {
-    'units': ['hdlc', 'kani:hdlc'],
-    'technique': 'Verus contracts (the per-bit HDLC rules as postconditions) on the real HdlcDeframer::update_state / work; Kani/CBMC full-domain proofs of bits2byte and calc_crc+FCSTAB',
-    'level_text': 'Automaton + kernels: for every state and every input bit update_state follows the HDLC rules (flag opens a frame, a zero after five ones is discarded, seven ones abort, over-long frames are dropped only beyond max_size bytes, a closing flag re-opens); nothing is emitted unless the buffered bits are whole bytes >= min_size and (checksum on, no bit fixing) the CRC equals the FCS; such a frame IS emitted; never Err or panic; work() feeds every bit of its window. bits2byte for all 256 vectors; calc_crc == bitwise CRC-16/X.25 for all messages of length 1, 2 (thorough 3, 4). The framing-then-deframing round trip is NOT proved.',
-    'level_note': 'Complete per stated message length (labelled bounded in evidence); arbitrary-length CRC and the framing state machine (owned Vec swapped through an enum, iterator-built byte vectors) are outside Verus\' subset and Kani cannot run a stream. Kani/CBMC trusted.',
-    'not_covered': ['end-to-end round trip deframe(frame(p)) == p (needs an encoder spec and an induction over bit stuffing)', 'find_right_crc (single-bit fixing) is a trusted callee', 'calc_crc for messages longer than 4 bytes'],
-    'assumptions': ['find_right_crc contract trusted; spec_crc / spec_byte are tied to calc_crc / bits2byte only through the Kani group', 'chunk independence of HdlcDeframer (C08) is not claimed: the automaton state is carried in self.state and work() applies update_state bit by bit, but no mirror function of the whole automaton is proved'],
+    'units': ['hdlc', 'crc', 'kani:hdlc'],
+    'technique': 'Verus contracts (the per-bit HDLC rules as postconditions) on the real HdlcDeframer::update_state / work; Verus proof of FCSTAB, calc_crc (any length) and find_right_crc against the bitwise CRC-16/X.25; Kani/CBMC full-domain proofs of bits2byte and of calc_crc on the compiled code for short messages',
+    'level_text': 'Automaton + kernels: for every state and every input bit update_state follows the HDLC rules (flag opens a frame, a zero after five ones is discarded, seven ones abort, over-long frames are dropped only beyond max_size bytes and without losing the bit that revealed it, a closing flag re-opens); nothing is emitted unless the buffered bits are whole bytes >= min_size and (checksum on, no bit fixing) the CRC equals the FCS; such a frame IS emitted; never Err or panic; work() feeds every bit of its window. Checksum: every FCSTAB entry is the eight-shift function of its index (by computation), calc_crc == bitwise CRC-16/X.25 for messages of EVERY length (loop invariant + register linearity by bit-vector reasoning), find_right_crc repairs only when asked, only by one flipped data bit whose CRC matches, never the FCS (dead loop), and claims nothing if no flip matches. bits2byte for all 256 vectors (Kani). The framing-then-deframing round trip is NOT proved.',
+    'level_note': 'The framing state machine is proved rule by rule, not as one stream function; the round trip needs an encoder specification and an induction over bit stuffing. Kani cross-checks calc_crc on the compiled code for lengths 1, 2 (thorough: 3..8).',
+    'not_covered': ['end-to-end round trip deframe(frame(p)) == p (needs an encoder spec and an induction over bit stuffing)', 'that a single-bit repair restores the ORIGINAL frame (CRC theory: minimum distance), only that it is a single-bit flip whose CRC matches'],
+    'assumptions': ['spec_byte is tied to bits2byte through the Kani group (all 256 vectors); the clauses unit hdlc assumes of find_right_crc are proved of its body in unit crc', 'chunk independence of HdlcDeframer (C08) is not claimed: the automaton state is carried in self.state and work() applies update_state bit by bit, but no mirror function of the whole automaton is proved'],
 }
 P['C14'] = {
     'units': ['kani:codecs', 'fsrc', 'tcp', 'au', 'auenc', 'sigmf'],
@@ -69,7 +69,7 @@ _NOT_COVERED_BLOCKS = [
     'derive-generated sync work() (Tee, Add, Xor, AddConst, XorConst, NrziDecode, Descrambler, SinglePoleIirFilter, QuadratureDemod, BinarySlicer, convert ...): only BOUNDED drip-feed stand-ins (bx:sync, bx:dsp), never counted as proved; their per-sample kernels are under contract in unit kernels / Kani',
     'FftFilterFloat::work (drives two private streams itself): bounded only (bx:dsp)',
     'HdlcDeframer: per-bit rules proved (C13) but chunk independence as a whole-stream function is not claimed; IL2P header codec (LFSR, RS stripping, field parsing) is a trusted predicate',
-    'ToText, PduWriter, VectorSink, SignalSource, DebugSink and the other sinks/sources not listed under functions',
+    'ToText: bounded only (bx:totext); PduWriter, DebugSink and the other sinks/sources not listed under functions',
     'Wpcr::process_one (FFT planner + iterator pipeline); only its callee find_best_bin and Midpointer::work are under contract',
     'the VALUES computed by floating-point code (C11 n/a): float operations are uninterpreted deterministic functions',
     'Delay::set_delay', 'constructors (establish the invariants by inspection only)']
@@ -77,7 +77,7 @@ _NOT_COVERED_BLOCKS = [
 _BU = ['skip', 'delay', 'vsrc', 'v2s', 'consts', 'resampler', 'rtlsdr', 's2pdu', 'hilbert', 'fftstream', 'fftfilter']
 _FIR = ['fir']
 P['C08'] = {
-    'units': list(_BU) + _FIR + ['zc', 'symsync', 'il2p', 'bx:sync', 'bx:dsp'],
+    'units': list(_BU) + _FIR + ['zc', 'symsync', 'il2p', 'bx:sync', 'bx:dsp', 'bx:totext'],
     'technique': 'Verus: each covered work() proved to preserve out.produced == F(in.consumed) under a stream-API contract with a universally quantified environment (any window lengths)',
     'level_text': 'Deductive proof, no bound, for the blocks listed under functions (Skip, Delay, VectorSource, VecToStream, ConstantSource, NullSink, RationalResampler, FirFilter, RtlSdrDecode, StreamToPdu, Hilbert, FftStream, FftFilter, ZeroCrossing, SymbolSync, Il2pDeframer): the invariant (state, dst.produced) == F(src.consumed) holds after every work() call for every read-window extension and every write-window length, hence for every chunking, every amount of free output space (incl. full) and every wrap position; no panic site in those bodies is reachable. Float arithmetic inside F is uninterpreted. Sync blocks generated by the derive macro and FftFilterFloat are covered by BOUNDED differential runs only (bit-identical output of a roomy run and an adversarial drip-fed run of the same millions of samples), labelled bounded.',
     'level_note': 'Subset; see coverage.not_covered. Trusted: stream-API contract (stream_prelude.vx), std shims, determinism of float operations. Where F is spelled out (clock recovery step, PDU rule, resampler rule, overlap-add) a behaviour change that keeps chunk independence still fails the contract and must be accompanied by a contract update.',
@@ -105,7 +105,7 @@ P['C12'] = {
     'not_covered': _NOT_COVERED_BLOCKS, 'assumptions': _BLOCK_ASSUME,
 }
 P['C15'] = {
-    'units': ['skip', 'delay', 'v2s', 'fir', 'resampler', 'rtlsdr', 's2pdu', 'hilbert', 'fftstream', 'fftfilter', 'zc', 'symsync', 'sigmf', 'wpcr', 'hdlc', 'tcp', 'au', 'auenc', 'il2p', 'kani:lfsr', 'kani:hdlc', 'kani:codecs', 'bx:dsp'],
+    'units': ['skip', 'delay', 'v2s', 'fir', 'resampler', 'rtlsdr', 's2pdu', 'hilbert', 'fftstream', 'fftfilter', 'zc', 'symsync', 'sigmf', 'wpcr', 'hdlc', 'crc', 'tcp', 'au', 'auenc', 'il2p', 'kani:lfsr', 'kani:hdlc', 'kani:codecs', 'bx:dsp'],
     'technique': 'Verus panic-freedom obligations (refuse/overflow/bounds/callee preconditions unreachable for arbitrary sample values) + Kani totality harnesses over all input bytes',
     'level_text': "Deductive proof for the covered bodies: no panic site (slice index, unwrap, overflow, division, assert where it is an obligation) is reachable for any sample / byte / burst / file content: the block bodies listed under functions, AuDecode header arithmetic, HdlcDeframer::update_state, SigMFSource::work (truncated and empty data), wpcr find_best_bin and Midpointer::work (every burst incl. empty, one element, constant, NaN), ZeroCrossing / SymbolSync index arithmetic on both outputs; Kani: bits2byte, calc_crc (lengths 1..2, thorough ..4), the codecs' parse for all bytes; the two LFSR steps for every input byte (2 known findings). Il2pDeframer::work index arithmetic and its two assert sites. Bounded only: float blocks (bx:dsp).",
     'level_note': "Subset only: SymbolSync's two assert!s on float ordering are treated as refusals (float reasoning, not decided), Wpcr::process_one and SigMF metadata / archive parsing are not under contract.",
